@@ -175,6 +175,8 @@ func genC03(t *rapid.T) *Scenario {
 			inv.Caller = ContractAddrs[0]
 		}
 		sc.Invs = []Invocation{inv}
+	case r < 19 && chance(t, 30, "depthfam"):
+		sc = depthScenario(t)
 	default:
 		sc = GenTreeScenario(t, TreeCfg{MaxFork: 12, MaxInvs: 2, Budget: 6, Journal: true, Transient: true, EmptyData: 30, ValuePct: 40, LowGasPct: 20, AllKinds: true})
 		bindAspects(t, sc, []AspectSpec{{Burn: 0, End: "ok"}, {Burn: 0, End: "trap"}, {Burn: 1000000000, End: "ok"}, {Burn: 10, End: "revert"}}, 50)
